@@ -459,6 +459,32 @@ def fortran_programs(tier: str, seed: int):
         if k < 0.88:
             return Call(rng.choice(F_CALLS1), (gen(d - 1),))
         return Call(rng.choice(genum.CALLS2), (gen(d - 1), gen(d - 1)))
+    def const_val(e):
+        """Python value of a constant-only sub-expression (None if it has variables or cannot be evaluated)."""
+        if any(isinstance(x, Var) for x in walk(e)):
+            return None
+        try:
+            from gram import Env, interp
+            import math
+            v = interp(e, Env({}, 0, {'exp': math.exp, 'log': math.log, 'abs': abs, 'max': max, 'min': min}))
+            return v
+        except Exception:  # noqa: BLE001
+            return 'invalid'
+
+    def negative_base_power(p):
+        # a negative constant raised to a non-integer-literal power is complex / NaN in Python and prohibited in
+        # Fortran: not "data for which values stay finite"
+        for eq in p:
+            for n in walk(eq.expr):
+                if isinstance(n, Bin) and n.op == '**':
+                    b = const_val(n.l)
+                    if b == 'invalid' or isinstance(b, complex) or (b is not None and b < 0 and not (isinstance(n.r, Num) and '.' not in n.r.text)):
+                        return True
+                v = const_val(n) if isinstance(n, (Bin, Call, Neg)) else None
+                if v == 'invalid' or isinstance(v, complex):
+                    return True
+        return False
+
     def const_only_call(p):
         # exp/log of a constant sub-expression is folded (or rejected, e.g. log(-0.5)) at compile time and is
         # non-finite in Python: outside "all data for which values stay finite"
@@ -470,8 +496,9 @@ def fortran_programs(tier: str, seed: int):
 
     while len(sampled) < n_s:
         p = tuple(Eq(Var(n), gen(rng.choice([2, 3, 4] if tier == 'quick' else [2, 3, 4, 5, 6]))) for n in ['A', 'B', 'C'][:rng.choice([1, 2] if tier == 'quick' else [1, 2, 3])])
-        if not const_only_call(p):
+        if not const_only_call(p) and not negative_base_power(p):
             sampled.append(p)
+    progs = [p for p in progs if not negative_base_power(p)]
     if tier == 'quick':
         progs = rng.sample(progs, 220)
     return {'exhaustive': progs, 'fixed': fixed, 'sampled': sampled}
